@@ -45,7 +45,7 @@ BUDGET = {'quick': 110, 'thorough': 1500}
 TIMEOUT = 200
 SHRINK_LISTS = []
 EXPECTED_PROBES = ['later_routine_after_failure', 'failure_constructed', 'success_reexamined', 'dependant_checked', 'cli_checked', 'nan_injected',
-                   'collapse_reached', 'criteria_tripped', 'io_corrupted']
+                   'collapse_reached', 'criteria_tripped', 'io_corrupted', 'nk_run', 'nk_failed']
 RULE = ('fixed catalogue (class x case x position) enumerated completely, then seeded combinations; non-trivial = the failure '
         'actually occurred (routine did fail / fault fired) or a success was re-examined; distinct = (class, case, position/format)')
 ASSUMPTIONS = [
@@ -57,6 +57,7 @@ ASSUMPTIONS = [
 SMALL = ['kundur/kundur_full.xlsx', 'ieee14/ieee14_fault.xlsx', '5bus/pjm5bus.json', 'smib/SMIB.xlsx', 'wecc/wecc_gencls.xlsx',
          'ieee14/ieee14_linetrip.xlsx', 'kundur/kundur_sexs.xlsx']
 STATIC = ['wscc9/wscc9.xlsx', 'ieee39/ieee39.xlsx', 'ieee14/ieee14.json']
+NK_CASES = ['kundur/kundur_full.xlsx', 'ieee14/ieee14.json', 'wscc9/wscc9.xlsx', '5bus/pjm5bus.json', 'ieee14/ieee14_fault.xlsx']
 IO_FILES = ['kundur/kundur_full.xlsx', 'kundur/kundur_full.json', 'ieee14/ieee14.raw', 'matpower/case14.m', 'kundur/kundur.raw',
             '5bus/pjm5bus.json', 'wscc9/wscc9.raw', 'matpower/case5.m']
 
@@ -81,6 +82,8 @@ def fixed_catalogue():
         out.append({'cls': 'seq_retry', 'case': case})
         for how in ('overload', 'iter_limit', 'nan'):
             out.append({'cls': 'seq_ok_then_fail', 'case': case, 'how': how})
+    for case, sc in (('kundur/kundur_full.xlsx', 3.0), ('ieee14/ieee14.json', 30.0), ('wscc9/wscc9.xlsx', 30.0), ('ieee14/ieee14.json', 1.5)):
+        out.append({'cls': 'pf_nk', 'case': case, 'scale': sc})
     out.append({'cls': 'tds_criteria', 'case': 'kundur/kundur_full.xlsx', 'dur': 1.0})
     out.append({'cls': 'tds_criteria', 'case': 'ieee14/ieee14_fault.xlsx', 'dur': 1.5})
     for f in IO_FILES:
@@ -105,7 +108,7 @@ def elaborate(stub):
     r = stream(seed, 'class')
     cls = r.choice(['pf_overload', 'pf_nan', 'pf_iter_limit', 'pf_moderate', 'pf_moderate', 'tds_nan', 'tds_nan', 'tds_collapse',
                     'tds_shrinkt0', 'tds_criteria', 'tds_bad_init', 'dep_after_pf_fail', 'io_truncated', 'io_truncated',
-                    'seq_retry', 'pf_no_slack', 'pf_zero_z', 'seq_ok_then_fail', 'seq_ok_then_fail'])
+                    'seq_retry', 'pf_no_slack', 'pf_zero_z', 'seq_ok_then_fail', 'seq_ok_then_fail', 'pf_nk'])
     c = stream(seed, 'case')
     p = {'property': PROP, 'seed': seed, 'cls': cls}
     if cls.startswith('io_'):
@@ -121,6 +124,9 @@ def elaborate(stub):
         p['method'] = c.choice(['NR', 'dishonest', 'NR'])
     if cls == 'pf_nan':
         p['k'] = c.randint(0, 3)
+    if cls == 'pf_nk':
+        p['case'] = c.choice(NK_CASES)
+        p['scale'] = c.choice([1.0, 1.5, 3.0, 8.0, 30.0, 100.0])
     if cls == 'pf_iter_limit':
         p['max_iter'] = c.choice([0, 1])
     if cls in ('tds_nan', 'tds_collapse', 'tds_shrinkt0'):
@@ -209,9 +215,9 @@ def check_dependants(ss, cls, v, probes):
             v.append(V('dependant', 'EIG.run() after a failed power flow returned %r' % ret, cls=cls, routine='EIG', what='ran'))
 
 
-def reexamine_pf_success(ss, cls, v, probes):
+def reexamine_pf_success(ss, cls, v, probes, tol=None):
     probes['success_reexamined'] = probes.get('success_reexamined', 0) + 1
-    tol = ss.PFlow.config.tol
+    tol = tol or ss.PFlow.config.tol
     if not (finite(ss.dae.x) and finite(ss.dae.y)):
         v.append(V('success_valid', 'PFlow.run() True with non-finite solution', cls=cls, what='nan'))
         return
@@ -245,6 +251,24 @@ def sc_pf_overload(p, v, probes):
     elif ret is False:
         check_dependants(ss, p['cls'], v, probes)
     return [p['case'], p['scale'] >= 20]
+
+
+def sc_pf_nk(p, v, probes):
+    """Newton-Krylov variant (non-default PFlow.method): an infeasible case must end in False, not in an exception or a success."""
+    import contextlib
+    import io as _io
+    ss = build_system(p['case'], knobs={'TDS.no_tqdm': 1, 'PFlow.method': 'NK'}, pre_setup=scale_loads(p['scale']))
+    with contextlib.redirect_stdout(_io.StringIO()):          # SciPy prints its iteration log
+        ret, exc = call(ss.PFlow.run)
+    probes['nk_run'] = 1
+    check_failed_pf(ss, ret, exc, p['cls'], v, probes)
+    if ret is True:
+        # the residual test of this variant is SciPy's (f_tol = eps**(1/3) ~ 6.1e-6 on the max norm)
+        reexamine_pf_success(ss, p['cls'], v, probes, tol=max(ss.PFlow.config.tol, 6.2e-6))
+    elif ret is False:
+        probes['nk_failed'] = 1
+        check_dependants(ss, p['cls'], v, probes)
+    return [p['case'], p['scale'], bool(ret)]
 
 
 def sc_pf_moderate(p, v, probes):
@@ -620,7 +644,7 @@ def _same_data(a, b):
 
 
 SCENARIOS = {
-    'pf_overload': sc_pf_overload, 'pf_moderate': sc_pf_moderate, 'pf_nan': sc_pf_nan, 'pf_iter_limit': sc_pf_iter_limit,
+    'pf_overload': sc_pf_overload, 'pf_nk': sc_pf_nk, 'pf_moderate': sc_pf_moderate, 'pf_nan': sc_pf_nan, 'pf_iter_limit': sc_pf_iter_limit,
     'pf_no_slack': sc_pf_no_slack, 'pf_zero_z': sc_pf_zero_z, 'tds_nan': sc_tds_nan, 'tds_collapse': sc_tds_collapse,
     'tds_shrinkt0': sc_tds_shrinkt0, 'tds_criteria': sc_tds_criteria, 'tds_bad_init': sc_tds_bad_init,
     'dep_after_pf_fail': sc_dep_after_pf_fail, 'seq_retry': sc_seq_retry, 'seq_ok_then_fail': sc_seq_ok_then_fail, 'io_missing': sc_io_missing,
